@@ -8,7 +8,7 @@ package gts
 //
 // Bound: coordinates {0,3,6,9} on a sequence of length 9; locations = every range over those
 // coordinates with every partial-marker combination, the complement of each, a point, a
-// between-site, two joins and an order; classes = (gene,a) (gene,b) (source,x); all tables of
+// between-site, two joins and an order; classes = (gene,a) (gene,b) (source,x) (gene,a+/pseudo); all tables of
 // 1 and 2 features, and tables of 3 features either sampled (quick) or all (thorough).
 
 import (
@@ -351,7 +351,8 @@ func TestVerifBoundedRepair(t *testing.T) {
 		key   string
 		props Props
 	}
-	classes := []kp{{"gene", Props{{"gene", "a"}}}, {"gene", Props{{"gene", "b"}}}, {"source", Props{{"organism", "x"}}}}
+	// the fourth class differs from the first only by a qualifier without a value
+	classes := []kp{{"gene", Props{{"gene", "a"}}}, {"gene", Props{{"gene", "b"}}}, {"source", Props{{"organism", "x"}}}, {"gene", Props{{"gene", "a"}, {"pseudo"}}}}
 	var feats []Feature
 	for _, c := range classes {
 		for _, l := range locs {
